@@ -75,6 +75,10 @@ def make_trace(label, stream, mode, plans):
     for cuts in plans:
         obs = A.run_pieces(stream, cuts, mode)
         first = len(cuts) == 1
+        if mode == "end":       # the application answers only after the last delivery: one comparison, at the end
+            if not first:
+                ev.append({"e": "cut", "n": cuts[-1], "w": widx(cuts[-1]), "split": obs[-1]})
+            continue
         for j, (n, o) in enumerate(zip(cuts, obs)):
             if j == 0 and not first and n != cuts[-1]:
                 # the first piece of a split run *is* the one-piece run of that prefix: nothing to compare
@@ -120,6 +124,8 @@ def streams(ctx):
     if ctx.quick:
         # the per-octet sweeps are C19's business; keep a sample of them and every structural mutation here
         cat = [(l, r) for (l, r) in cat if "-byte:" not in l or rng.random() < 0.06]
+    else:
+        cat = [(l, r) for (l, r) in cat if "-byte:" not in l or rng.random() < 0.25]
     for label, r in cat:
         s = r + A.FOLLOW
         if rng.random() < 0.3:
@@ -127,7 +133,7 @@ def streams(ctx):
             if not close:
                 s = v + s
         out.append((label, s))
-    for i in range(ctx.pick(100, 1200)):
+    for i in range(ctx.pick(80, 1200)):
         n = rng.randint(1, 3)
         s = b""
         for _ in range(n):
@@ -146,7 +152,8 @@ def run(ctx):
     traces = []
     nplans = 0
     for label, s in streams(ctx):
-        for mode in (("now", "later") if (len(s) <= SHORT or ctx.rng.random() < 0.5) else (ctx.rng.choice(["now", "later"]),)):
+        both = (len(s) <= SHORT or ctx.rng.random() < 0.5) and (not ctx.quick or ctx.rng.random() < 0.5)
+        for mode in (("now", "later", "end") if both else (ctx.rng.choice(["now", "later", "end"]),)):
             plans = plans_for(s, ctx.rng, ctx.pick(2, 6))
             if len(s) <= SHORT and ctx.quick and ctx.rng.random() < 0.5:
                 plans = [p for p in plans if len(p) != 2 or ctx.rng.random() < 0.5]
@@ -155,8 +162,14 @@ def run(ctx):
     ctx.extra["split_runs"] = nplans
     ctx.extra["streams"] = len(traces)
     slim = [{"cfg": t["cfg"], "whole": t["whole"], "ev": t["ev"]} for t in traces]
-    for t in slim:
-        ctx.note_trace(t, nontrivial=any(e["split"]["wire"] for e in t["ev"]))
+    import hashlib, json
+    for t, full in zip(slim, traces):
+        nt = any(e["split"]["wire"] for e in t["ev"])
+        if len(full["stream"]) > 800:     # long streams: keep the evidence file small, note a digest of the trace
+            ctx.note_trace({"cfg": t["cfg"], "label": full["label"], "comparisons": len(t["ev"]),
+                            "sha1": hashlib.sha1(json.dumps(t, sort_keys=True).encode()).hexdigest()}, nontrivial=nt)
+        else:
+            ctx.note_trace(t, nontrivial=nt)
     ctx.log("recorded %d (stream, mode) cases, %d split runs, %d comparisons" % (len(traces), nplans, sum(len(t["ev"]) for t in traces)))
     rej = ctx.validate("HttpSrvSegTrace", slim, shard_size=ctx.pick(150, 400))
     for x in rej[:200]:
